@@ -21,7 +21,10 @@ class IndentationFeatures(object):
 
     @property
     def is_valid(self):
-        return bool(self.dataset.fit_properties)
+        # A fit must have been attempted with the current settings
+        # (successful or not). Preprocessing or editing the settings
+        # alone does not make the dataset ratable.
+        return "success" in self.dataset.fit_properties
 
     @property
     def has_contact_point(self):
